@@ -132,7 +132,10 @@ GhostAppend(gh, rs, k, off, dirty) ==
   IF k > Len(rs) THEN gh
   ELSE LET r == rs[k]
            e == off + Len(Render(r))
-       IN GhostAppend([recs |-> Append(gh.recs, [o |-> r.o, m |-> r.m, h |-> r.h, s |-> r.s, t |-> r.t, end |-> e, alive |-> ~dirty]),
+       \* (every record that is written completely counts - "loading yields exactly the completely written records" -, also the
+       \* first one appended behind a torn line: a record swallowed by the torn line would let an older record of the same
+       \* output win, and with it an output look up to date)
+       IN GhostAppend([recs |-> Append(gh.recs, [o |-> r.o, m |-> r.m, h |-> r.h, s |-> r.s, t |-> r.t, end |-> e, alive |-> TRUE]),
                        hist |-> gh.hist \cup {<<r.o, r.m, r.h>>}, hashes |-> gh.hashes \cup {r.h},
                        merged |-> gh.merged \/ dirty],
                       rs, k + 1, e, FALSE)
